@@ -159,14 +159,14 @@ Proof.
 Qed.
 
 Lemma save_new_preserves : forall T, safe_new T = true ->
-  forall its s run fs rep fs' rep' e,
-  save_new T its s run fs rep = (fs', rep', e) ->
+  forall ep its s run fs rep fs' rep' e,
+  save_new T ep its s run fs rep = (fs', rep', e) ->
   forall f x, lookup f fs = Some x -> lookup f fs' = Some x.
 Proof.
-  intros T S. induction its as [|[b f0] rest IH]; intros s run fs rep fs' rep' e H f x L; simpl in H.
+  intros T S ep. induction its as [|[b f0] rest IH]; intros s run fs rep fs' rep' e H f x L; simpl in H.
   - now injection H as <- _ _.
   - destruct (assoc_f f0 (t_new T)) as [[w|]|] eqn:A; try (now injection H as <- _ _).
-    destruct (write_file (beh T w) fs (render_new b s f0) (content run b f0)) as [fs1 o] eqn:W.
+    destruct (write_file (beh T w) fs (render_new b s f0) (content ep run b f0)) as [fs1 o] eqn:W.
     pose proof (write_file_preserves _ _ _ _ _ _ f x (safe_new_beh T f0 w S A) W L) as L1.
     destruct o.
     + eapply IH; eauto.
@@ -175,13 +175,13 @@ Proof.
 Qed.
 
 Lemma flow_dask_from_preserves : forall T, safe_new T = true ->
-  forall req n run fs rep fs' rep' e,
-  flow_dask_from T req n run fs rep = (fs', rep', e) ->
+  forall ep req n run fs rep fs' rep' e,
+  flow_dask_from T ep req n run fs rep = (fs', rep', e) ->
   forall f x, lookup f fs = Some x -> lookup f fs' = Some x.
 Proof.
-  intros T S req. induction n as [|n IH]; intros run fs rep fs' rep' e H f x L; simpl in H.
+  intros T S ep req. induction n as [|n IH]; intros run fs rep fs' rep' e H f x L; simpl in H.
   - now injection H as <- _ _.
-  - destruct (save_new T (items req) (Some run) run fs rep) as [[fs1 rep1] [e1|]] eqn:E.
+  - destruct (save_new T ep (items req) (Some run) run fs rep) as [[fs1 rep1] [e1|]] eqn:E.
     + injection H as <- _ _. eapply save_new_preserves; eauto.
     + eapply IH; [exact H|]. eapply save_new_preserves; eauto.
 Qed.
@@ -192,23 +192,23 @@ Local Open Scope list_scope.
 Definition new_entries (its : list (bucket * fmt)) (s : option nat) (run : nat) : list entry :=
   map (fun bf => (run, fst bf, snd bf, render_new (fst bf) s (snd bf))) its.
 
-Lemma save_new_complete : forall T its s run fs rep fs' rep',
-  save_new T its s run fs rep = (fs', rep', None) -> rep' = rep ++ new_entries its s run.
+Lemma save_new_complete : forall T ep its s run fs rep fs' rep',
+  save_new T ep its s run fs rep = (fs', rep', None) -> rep' = rep ++ new_entries its s run.
 Proof.
-  intros T. induction its as [|[b f0] rest IH]; intros s run fs rep fs' rep' H; simpl in H.
+  intros T ep. induction its as [|[b f0] rest IH]; intros s run fs rep fs' rep' H; simpl in H.
   - injection H as _ <-. simpl. now rewrite app_nil_r.
   - destruct (assoc_f f0 (t_new T)) as [[w|]|] eqn:A; try discriminate H.
-    destruct (write_file (beh T w) fs (render_new b s f0) (content run b f0)) as [fs1 o] eqn:W.
+    destruct (write_file (beh T w) fs (render_new b s f0) (content ep run b f0)) as [fs1 o] eqn:W.
     destruct o; try discriminate H; apply IH in H; rewrite H, <- app_assoc; reflexivity.
 Qed.
 
-Lemma flow_dask_from_complete : forall T req n run fs rep fs' rep',
-  flow_dask_from T req n run fs rep = (fs', rep', None) ->
+Lemma flow_dask_from_complete : forall T ep req n run fs rep fs' rep',
+  flow_dask_from T ep req n run fs rep = (fs', rep', None) ->
   rep' = rep ++ flat_map (fun r => new_entries (items req) (Some r) r) (seq run n).
 Proof.
-  intros T req. induction n as [|n IH]; intros run fs rep fs' rep' H; simpl in H.
+  intros T ep req. induction n as [|n IH]; intros run fs rep fs' rep' H; simpl in H.
   - injection H as _ <-. simpl. now rewrite app_nil_r.
-  - destruct (save_new T (items req) (Some run) run fs rep) as [[fs1 rep1] [e1|]] eqn:E; [discriminate H|].
+  - destruct (save_new T ep (items req) (Some run) run fs rep) as [[fs1 rep1] [e1|]] eqn:E; [discriminate H|].
     apply save_new_complete in E. apply IH in H. subst. simpl. now rewrite <- app_assoc.
 Qed.
 
@@ -222,23 +222,26 @@ Qed.
 
 (* --- attribution --- *)
 
+(* no file with a name the flows could render exists yet (e.g. the freshly created directory) *)
+Definition fresh (fs : files) : Prop := forall b s f, lookup (render_new b s f) fs = None.
+
+Section Attribution.
+Variable ep : nat.
+
 Definition run_of (s : option nat) : nat := match s with None => 0 | Some r => r end.
 
 (* every file that carries a new-API name holds the content that name stands for *)
 Definition good (fs : files) : Prop :=
-  forall b s f c, lookup (render_new b s f) fs = Some c -> c = content (run_of s) b f.
+  forall b s f c, lookup (render_new b s f) fs = Some c -> c = content ep (run_of s) b f.
 
 Definition attributed (rep : list entry) (fs : files) : Prop :=
-  forall r b f n, In (r, b, f, n) rep -> lookup n fs = Some (content r b f).
-
-(* no file with a name the flows could render exists yet (e.g. the freshly created directory) *)
-Definition fresh (fs : files) : Prop := forall b s f, lookup (render_new b s f) fs = None.
+  forall r b f n, In (r, b, f, n) rep -> lookup n fs = Some (content ep r b f).
 
 Lemma fresh_good : forall fs, fresh fs -> good fs.
 Proof. intros fs F b s f c H. rewrite F in H. discriminate. Qed.
 
 Lemma set_good : forall fs b s f,
-  good fs -> good (set_file (render_new b s f) (content (run_of s) b f) fs).
+  good fs -> good (set_file (render_new b s f) (content ep (run_of s) b f) fs).
 Proof.
   intros fs b s f G b' s' f' c H.
   destruct (string_dec (render_new b s f) (render_new b' s' f')) as [E|N].
@@ -249,7 +252,7 @@ Qed.
 
 Lemma set_attributed : forall fs rep b s f,
   good fs -> attributed rep fs ->
-  attributed rep (set_file (render_new b s f) (content (run_of s) b f) fs).
+  attributed rep (set_file (render_new b s f) (content ep (run_of s) b f) fs).
 Proof.
   intros fs rep b s f G A r b' f' n Hin.
   destruct (string_dec (render_new b s f) n) as [E|N].
@@ -260,14 +263,14 @@ Qed.
 
 Lemma save_new_attributed : forall T its s fs rep fs' rep' e,
   good fs -> attributed rep fs ->
-  save_new T its s (run_of s) fs rep = (fs', rep', e) ->
+  save_new T ep its s (run_of s) fs rep = (fs', rep', e) ->
   good fs' /\ attributed rep' fs'.
 Proof.
   intros T. induction its as [|[b f0] rest IH]; intros s fs rep fs' rep' e G A H; simpl in H.
   - injection H as <- <- _. auto.
   - destruct (assoc_f f0 (t_new T)) as [[w|]|] eqn:Af; try (injection H as <- <- _; auto).
     unfold write_file in H.
-    set (n := render_new b s f0) in *. set (c := content (run_of s) b f0) in *.
+    set (n := render_new b s f0) in *. set (c := content ep (run_of s) b f0) in *.
     assert (Gset : good (set_file n c fs)) by (apply set_good; exact G).
     assert (Aset : attributed (rep ++ [(run_of s, b, f0, n)]) (set_file n c fs)).
     { intros r b' f' m Hin. apply in_app_or in Hin. destruct Hin as [Hin|[Hin|[]]].
@@ -285,24 +288,82 @@ Qed.
 
 Lemma flow_dask_from_attributed : forall T req n run fs rep fs' rep' e,
   good fs -> attributed rep fs ->
-  flow_dask_from T req n run fs rep = (fs', rep', e) ->
+  flow_dask_from T ep req n run fs rep = (fs', rep', e) ->
   good fs' /\ attributed rep' fs'.
 Proof.
   intros T req. induction n as [|n IH]; intros run fs rep fs' rep' e G A H; simpl in H.
   - injection H as <- <- _. auto.
-  - destruct (save_new T (items req) (Some run) run fs rep) as [[fs1 rep1] [e1|]] eqn:E.
+  - destruct (save_new T ep (items req) (Some run) run fs rep) as [[fs1 rep1] [e1|]] eqn:E.
     + injection H as <- <- _. eapply (save_new_attributed T _ (Some run)); eauto.
     + destruct (save_new_attributed T _ (Some run) _ _ _ _ _ G A E) as [G1 A1].
       eapply IH; eauto.
 Qed.
 
+End Attribution.
+
 (* the dask flow = the metadata run in a temporary directory, then the runs *)
-Lemma flow_dask_cases : forall T req n fs fs' rep e,
-  flow_dask T req n fs = (fs', rep, e) ->
-  (fs' = fs /\ rep = [] /\ e <> None) \/ flow_dask_from T req n 0 fs [] = (fs', rep, e).
+Lemma flow_dask_cases : forall T ep req n fs fs' rep e,
+  flow_dask T ep req n fs = (fs', rep, e) ->
+  (fs' = fs /\ rep = [] /\ e <> None) \/ flow_dask_from T ep req n 0 fs [] = (fs', rep, e).
 Proof.
-  intros T req n fs fs' rep e H. unfold flow_dask in H.
-  destruct (save_new T (items req) None 0 [] []) as [[a b] [e0|]].
+  intros T ep req n fs fs' rep e H. unfold flow_dask in H.
+  destruct (dask_meta_err T ep req) as [e0|].
   - left. injection H as <- <- <-. repeat split; congruence.
   - right. exact H.
+Qed.
+
+(* ------------------------------------------------------------------ the flows as wholes (any tables) *)
+
+Lemma flow_exposure_complete : forall T ep req fs fs' rep,
+  flow_exposure T ep req fs = (fs', rep, None) ->
+  forall r b f n, In (r, b, f, n) rep <-> r = 0 /\ In (b, f) (items req) /\ n = render_new b None f.
+Proof.
+  intros T ep req fs fs' rep H r b f n. apply save_new_complete in H. subst rep. simpl.
+  apply in_new_entries.
+Qed.
+
+Lemma flow_dask_complete : forall T ep req nruns fs fs' rep,
+  flow_dask T ep req nruns fs = (fs', rep, None) ->
+  forall r b f n, In (r, b, f, n) rep <->
+    r < nruns /\ In (b, f) (items req) /\ n = render_new b (Some r) f.
+Proof.
+  intros T ep req nruns fs fs' rep H r b f n. apply flow_dask_cases in H.
+  destruct H as [(_ & _ & X)|H]; [congruence|].
+  apply flow_dask_from_complete in H. subst rep. simpl.
+  rewrite in_flat_map. split.
+  - intros [x [Hx Hin]]. apply in_seq in Hx. apply in_new_entries in Hin.
+    destruct Hin as (-> & Hin & ->). repeat split; auto; lia.
+  - intros (Hr & Hin & ->). exists r. split; [apply in_seq; lia | now apply in_new_entries].
+Qed.
+
+Lemma flow_exposure_preserves : forall T, safe_new T = true ->
+  forall ep req fs fs' rep e, flow_exposure T ep req fs = (fs', rep, e) ->
+  forall f x, lookup f fs = Some x -> lookup f fs' = Some x.
+Proof. intros T S ep req fs fs' rep e H. exact (save_new_preserves _ S _ _ _ _ _ _ _ _ _ H). Qed.
+
+Lemma flow_dask_preserves : forall T, safe_new T = true ->
+  forall ep req n fs fs' rep e, flow_dask T ep req n fs = (fs', rep, e) ->
+  forall f x, lookup f fs = Some x -> lookup f fs' = Some x.
+Proof.
+  intros T S ep req n fs fs' rep e H. apply flow_dask_cases in H. destruct H as [(-> & _ & _)|H]; [auto|].
+  exact (flow_dask_from_preserves _ S _ _ _ _ _ _ _ _ _ H).
+Qed.
+
+Lemma flow_exposure_attributed : forall T ep req fs fs' rep e,
+  fresh fs -> flow_exposure T ep req fs = (fs', rep, e) -> attributed ep rep fs'.
+Proof.
+  intros T ep req fs fs' rep e F H.
+  apply (save_new_attributed ep T (items req) None fs [] fs' rep e); auto.
+  - now apply fresh_good.
+  - intros r b f n [].
+Qed.
+
+Lemma flow_dask_attributed : forall T ep req n fs fs' rep e,
+  fresh fs -> flow_dask T ep req n fs = (fs', rep, e) -> attributed ep rep fs'.
+Proof.
+  intros T ep req n fs fs' rep e F H. apply flow_dask_cases in H.
+  destruct H as [(_ & -> & _)|H]; [intros r b f m []|].
+  apply (flow_dask_from_attributed ep T req n 0 fs [] fs' rep e); auto.
+  - now apply fresh_good.
+  - intros r b f m [].
 Qed.
